@@ -78,6 +78,8 @@ def cases(tier, rng):
                 yield Case("note.change_octave", [x, o, d], "change_octave", kind=("oct",))
     for c in sequence_cases():
         yield c
+    for c in section_cases():
+        yield c
     for _ in range(150 if tier == "quick" else 1500):
         items = [c for c in (rand_content(rng) for _ in range(1)) if c][0:1]
         if items:
@@ -120,6 +122,19 @@ def sequence_cases():
                     ops.append(["add", [["obj", n, o]], value])
             yield Case("track.run", ["none", ops + [tr]], "track/sequence", kind=("track",))
             yield Case("track.run", ["none", ops + [tr, tr]], "track/sequence", kind=("track",))
+
+def section_cases():
+    """tracks whose bars differ in meter and key, with a bar that is not full before the end and an empty bar in the middle:
+    a transformation must leave the bars as they are"""
+    A, B, R = [["obj", "A", 3]], [["obj", "C", 4], ["obj", "E", 4]], None
+    ops = [["add_bar", "C", 3, 4], ["add", A, 4], ["add", B, 4], ["add", R, 4],
+           ["add_bar", "C", 4, 4], ["add", B, 2], ["add", A, 4],                     # 3/4 of a 4/4 bar: not full
+           ["add_bar", "G", 6, 8], ["add", A, 8], ["add", R, 8], ["add", B, 4],
+           ["add_bar", "D", 2, 2],                                                   # an empty bar
+           ["add_bar", "f#", 5, 8], ["add", B, 8], ["add", A, 2]]
+    for tr in (["transpose", "3", True], ["transpose", "b7", False], ["augment"], ["diminish"], ["transpose", "5", True]):
+        yield Case("track.run", ["none", ops + [tr]], "track/sections", kind=("track",))
+        yield Case("track.run", ["none", ops[:7] + [tr] + ops[7:] + [tr]], "track/sections", kind=("track",))
 
 def spec_transpose(nm, o, sh, up):
     """(letter, pitch) the statement prescribes"""
